@@ -555,6 +555,15 @@ theorem sized_swap_records {s n : Nat} {buf : Buf} (hl : buf.length = n * s) {i 
       if k = i then recAt s buf j else if k = j then recAt s buf i else recAt s buf k :=
   recAt_sizedSwap hl hi hj k hk
 
+/-- `ProxyIterator`/`SizedInnerIterator` arithmetic (proxy_iterator.hh, sized_iterator.hh:27-33):
+`it += k` moves the pointer by `k·size` bytes and `it₂ - it₁` divides the byte distance by `size`,
+so iterator positions are record indices: record `i + k` starts at byte `(i + k)·s`, and the
+distance between records `i ≤ j` is `j - i`. -/
+theorem proxy_iterator_arith (s i j k : Nat) (hs : 0 < s) (hij : i ≤ j) :
+    i * s + k * s = (i + k) * s ∧ (j * s - i * s) / s = j - i := by
+  refine ⟨(Nat.add_mul i k s).symm, ?_⟩
+  rw [← Nat.sub_mul, Nat.mul_div_cancel _ hs]
+
 /-- the model's swap is the code's swap: the table regenerated on every run by tools/probe_C16.cc
 (the real `util::swap(SizedProxy, SizedProxy)` on `[0 … 2s-1]` for 27 record sizes in 1…64) is
 reproduced by `sizedSwap`.  A swap that is not byte-wise (seeded/C16-3) changes the table and this
